@@ -66,6 +66,26 @@ func c14Replay(ctx *core.Ctx, fixtures []*c14Key) error {
 	if err != nil {
 		return core.Inconcl("replay: %v", err)
 	}
+	if sc.Op == "History" {
+		if sc.Key2 == nil {
+			return core.Inconcl("replay: a History scenario needs two keys")
+		}
+		k2, err := c14Resolve(*sc.Key2, fixtures)
+		if err != nil {
+			return core.Inconcl("replay: %v", err)
+		}
+		s1, err1 := c14Store(k)
+		s2, err2 := c14Store(k2)
+		if err1 != nil || err2 != nil {
+			return core.Inconcl("replay: the keys cannot be serialised: %v %v", err1, err2)
+		}
+		r := c14RunHistory(sc.Hist, [2]*c14Stored{s1, s2}, sc.Seed, k.toy && k2.toy, col)
+		if r.Err != "" {
+			return core.Inconcl("replay: %s", r.Err)
+		}
+		fmt.Printf("replay History (%d operations, %d re-populations): %d violation(s)\n", r.Steps, r.Reloads, col.violations())
+		return nil
+	}
 	if _, err := c14RunScenario(sc, k, col); err != nil {
 		return core.Inconcl("replay: %v", err)
 	}
@@ -103,7 +123,15 @@ func C14(ctx *core.Ctx) error {
 	// ------------------------------------------------------------ plans
 	toyPlans := []c14ToyPlan{{P: 3, Q: 5, PairsFull: true, MultLines: 1200, AddLines: 1200, Chains: 40, AnyPerPlain: 2}}
 	mcPlans := []c14MC{{P: 3, Q: 5, AddMs: "0..(N - 1)", AddXs: "Units", Full: true, Label: "N=15: every added plaintext and randomiser, all pairs"}}
-	keyBits := []int{12, 14, 16, 18, 19, 20, 22, 24}
+	// lengths the key generation MODEL covers (TLC evaluates primality itself up to 30 bit moduli), and the even lengths
+	// offered to the model for the generation plan: it sorts them into the eight residue classes of (length/2) mod 8
+	keyBits := []int{12, 14, 16, 18, 19, 20, 22, 24, 26, 28, 30}
+	var planSizes []int
+	for b := 18; b <= ctx.Pick(64, 80); b += 2 {
+		planSizes = append(planSizes, b)
+	}
+	planSizes = append(planSizes, 126, 128, 130) // primes around the 64 bit word boundary of math/big (classes 7, 0, 1)
+	perClass := ctx.Pick(72, 240) // keys per residue class: a defect that spoils a third of the keys of ONE class escapes with (2/3)^72 < 1e-12
 	if ctx.Thorough() {
 		toyPlans = []c14ToyPlan{
 			{P: 3, Q: 5, PairsFull: true, MultLines: 6000, AddLines: 12000, Chains: 300, AnyPerPlain: 4},
@@ -113,7 +141,7 @@ func C14(ctx *core.Ctx) error {
 		mcPlans = append(mcPlans,
 			c14MC{P: 5, Q: 7, AddMs: "0..(N - 1)", AddXs: "Units", Full: true, Label: "N=35: every added plaintext and randomiser, all pairs"},
 			c14MC{P: 7, Q: 11, AddMs: "{0, 1, 2, N \\div 2, N - 1}", AddXs: "{1, SomeUnit, N - 1}", Full: false, Label: "N=77: 5 added plaintexts x 3 randomisers, every scalar; pair law along the sessions only"})
-		keyBits = append(keyBits, 26, 27, 28, 30)
+		keyBits = append(keyBits, 27)
 	} else {
 		toyPlans = append(toyPlans, c14ToyPlan{P: 5, Q: 7, PairsFull: false, MultLines: 600, AddLines: 600, Chains: 20, AnyPerPlain: 1})
 	}
@@ -136,17 +164,64 @@ func C14(ctx *core.Ctx) error {
 	}
 	var keyMC tlc.Result
 	var feas map[int][2]int
+	var classes []c14SizeClass
 	keyMCDone := make(chan struct{})
 	go func() {
 		defer close(keyMCDone)
 		t0 := time.Now()
-		r, f, err := c14RunKeyGenMC(keyBits, 2, tlcTimeout)
+		r, f, cl, err := c14RunKeyGenMC(keyBits, planSizes, 2, tlcTimeout)
 		timed("tlc_keygen_model", t0)
 		if err != nil {
 			fail("%v", err)
 			return
 		}
-		keyMC, feas = r, f
+		keyMC, feas, classes = r, f, cl
+	}()
+	// histories of key objects: the design (exhaustive over two toy keys), the defective variants (self-test of the
+	// model), and the generator of the histories that are replayed on the real structs
+	var histMC tlc.Result
+	var histMCLabel string
+	wg.Add(1)
+	go func() {
+		defer wg.Done()
+		r, label, err := c14RunHistMC(ctx.Thorough(), 2, tlcTimeout)
+		if err != nil {
+			fail("%v", err)
+			return
+		}
+		histMC, histMCLabel = r, label
+	}()
+	histVariants := []string{[]string{"mucache", "n2cache"}[int(ctx.Seed&1)]}
+	if ctx.Thorough() {
+		histVariants = []string{"mucache", "n2cache"}
+	}
+	histVariantViolated := map[string]string{}
+	for _, vn := range histVariants {
+		wg.Add(1)
+		go func(vn string) {
+			defer wg.Done()
+			r, err := c14RunHistVariant(vn, tlcTimeout)
+			if err != nil {
+				fail("%v", err)
+				return
+			}
+			phMu.Lock()
+			histVariantViolated[vn] = r.Violated
+			phMu.Unlock()
+		}(vn)
+	}
+	type histGenRes struct {
+		directed, walks [][]c14HistOp
+		r               tlc.Result
+		err             error
+	}
+	histGenCh := make(chan histGenRes, 1)
+	histOps := 12
+	go func() {
+		t0 := time.Now()
+		d, w, r, err := c14HistGenerate(ctx.Pick(40, 400), histOps, ctx.Seed, tlcTimeout)
+		timed("tlc_history_generator", t0)
+		histGenCh <- histGenRes{d, w, r, err}
 	}()
 
 	toyRes := make([]c14ToyResult, len(toyPlans))
@@ -268,11 +343,34 @@ func C14(ctx *core.Ctx) error {
 		ctx.Note("the toy phase already found %d contradiction(s); the real-size phase was skipped", toyViolations)
 	}
 
+	// ------------------------------------------------------------ histories: use, re-populate, use again
+	hg := <-histGenCh
+	histStats := map[string]any{}
+	var histDrift []string
+	if hg.err != nil {
+		fail("%v", hg.err)
+	} else if col.violations() == 0 {
+		t0 = time.Now()
+		if err := c14HistPhase(ctx, col, fixtures, hg.directed, hg.walks, histStats, &histDrift, fail,
+			func(lines []c14Line, stopAt int) {
+				if stopAt > 0 {
+					selfTests++
+				}
+				runV(func() (c14TraceVerdict, error) {
+					return c14ValidateHist("PaillierHist_Trace N=15/35", lines, stopAt, tlcTimeout)
+				})
+			}); err != nil {
+			fail("history phase: %v", err)
+		}
+		timed("histories", t0)
+	}
+
 	// ------------------------------------------------------------ key generation
 	<-keyMCDone
 	var genRes []c14GenResult
 	var keyLines []c14Line
 	genKeysUsed := 0
+	classKeys := map[int]int{}
 	if feas != nil && col.violations() == 0 {
 		t0 = time.Now()
 		var reqs []c14GenReq
@@ -286,7 +384,7 @@ func C14(ctx *core.Ctx) error {
 					f = 1
 				}
 			}
-			reqs = append(reqs, c14GenReq{Bits: bits, Conc: conc, Seed: seed, Feasible: f})
+			reqs = append(reqs, c14GenReq{Bits: bits, Conc: conc, Seed: seed, Feasible: f, Class: -1})
 		}
 		var small []int
 		for _, b := range keyBits {
@@ -315,6 +413,16 @@ func C14(ctx *core.Ctx) error {
 		if ctx.Thorough() {
 			addReq(1024, 8)
 		}
+		// the plan of the model: perClass keys in every residue class of (length/2) mod 8, spread over its sizes
+		for _, cl := range classes {
+			per := (perClass + len(cl.Sizes) - 1) / len(cl.Sizes)
+			for _, b := range cl.Sizes {
+				for i := 0; i < per; i++ {
+					addReq(b, 1+i%3)
+					reqs[len(reqs)-1].Class = cl.Class
+				}
+			}
+		}
 		genRes = c14RunGens(reqs, 6, time.Duration(ctx.Pick(4, 10))*time.Minute)
 		var genJobs []c14Job
 		for _, r := range genRes {
@@ -334,12 +442,24 @@ func C14(ctx *core.Ctx) error {
 				if len(r.Defects) == 0 && r.Line != nil {
 					keyLines = append(keyLines, r.Line)
 				}
-				if r.Key != nil {
+				if r.Req.Class >= 0 {
+					classKeys[r.Req.Class]++
+				}
+				if r.NoTopTwo && r.Line == nil {
+					// above the reach of the model: the shape of the factors is observed here (not part of C14: recorded)
+					col.noteDrift("a factor of a generated key lacks the generator model's two top bits; the modulus has the requested length (the top-two-bits claim is C19's)")
+				}
+				if r.Key != nil && (r.Req.Class < 0 || classKeys[r.Req.Class]%8 == 1) {
 					genKeysUsed++
 					for _, sc := range c14RealScenarios(r.Key, c14Rng(ctx.Seed, r.Req.Seed), r.Req.Seed, true) {
 						genJobs = append(genJobs, c14Job{r.Key, sc})
 					}
 				}
+			}
+		}
+		for _, cl := range classes {
+			if classKeys[cl.Class] < perClass*9/10 && col.violations() == 0 {
+				fail("key generation: only %d of the planned %d keys came back in the residue class %d (lengths %v)", classKeys[cl.Class], perClass, cl.Class, cl.Sizes)
 			}
 		}
 		lines, errs := c14RunJobs(genJobs, 8, col)
@@ -404,6 +524,11 @@ func C14(ctx *core.Ctx) error {
 			continue
 		}
 		traceLines += t.v.Lines
+		if t.v.Drift > 0 {
+			col.noteDrift("a factor of a generated key lacks the generator model's two top bits; the modulus has the requested length (the top-two-bits claim is C19's)")
+			ctx.Note("%s: %d of %d generated keys are good keys in the sense of the property but are not values the generator MODEL delivers (first: line %d); recorded as drift, the model's design-level numbers no longer describe the generator",
+				t.v.Label, t.v.Drift, t.v.Lines, t.v.DriftAt)
+		}
 		if t.v.Lines > 0 {
 			traceOut = append(traceOut, map[string]any{"trace": t.v.Label, "lines": t.v.Lines, "corrupted_copies_rejected": t.v.SelfRej, "tlc_wall_s": t.v.Res.Wall})
 		}
@@ -426,6 +551,10 @@ func C14(ctx *core.Ctx) error {
 			cov.AddMC(r.Distinct, r.Generated)
 			mcOut = append(mcOut, map[string]any{"spec": "Paillier.tla", "N": mcPlans[i].P * mcPlans[i].Q, "scope": mcPlans[i].Label, "distinct": r.Distinct, "generated": r.Generated, "wall_s": r.Wall})
 		}
+	}
+	if histMC.Distinct > 0 {
+		cov.AddMC(histMC.Distinct, histMC.Generated)
+		mcOut = append(mcOut, map[string]any{"spec": "PaillierHist.tla", "keys": "N=15 and N=35", "scope": histMCLabel + "; every history of Fresh/Add/Mult through either object, Dec, Proof, Reload in 5 modes", "distinct": histMC.Distinct, "generated": histMC.Generated, "wall_s": histMC.Wall})
 	}
 	if keyMC.Distinct > 0 {
 		cov.AddMC(keyMC.Distinct, keyMC.Generated)
@@ -478,6 +607,16 @@ func C14(ctx *core.Ctx) error {
 	cov.Set("generated_keys_exercised", genKeysUsed)
 	cov.Set("self_tests_corrupted_trace_rejected", selfTests)
 	cov.Set("vendored_keys_not_matching_todays_generator", fixtureDefects)
+	classOut := []map[string]any{}
+	for _, cl := range classes {
+		classOut = append(classOut, map[string]any{"half_length_mod_8": cl.Class, "bits_in_top_byte_of_candidate": cl.TopBits, "requested_lengths": cl.Sizes, "keys_judged": classKeys[cl.Class]})
+	}
+	cov.Set("keygen_size_classes", classOut)
+	cov.Set("histories", histStats)
+	cov.Set("history_model_defective_variants_violate", histVariantViolated)
+	if len(histDrift) > 0 {
+		cov.Set("history_drift", histDrift)
+	}
 	cov.Set("drift", col.drift)
 	cov.Set("phase_wall_s", phase)
 	cov.Set("exhaustive", false)
@@ -486,8 +625,9 @@ func C14(ctx *core.Ctx) error {
 		"evaluations = calls of the real EncryptAndReturnRandomness / Encrypt / Decrypt / HomoAdd / HomoMult (toy keys 15, 35[, 77] over the whole domain: every plaintext with every unit, "+
 			"every ciphertext of a window around [0,N^2), scalar x ciphertext and ciphertext x ciphertext pairs, sessions; vendored 2048 bit keys and freshly generated keys: sampled classes) "+
 			"plus GenerateKeyPair calls; each judged on its real outputs (error / no error, independent CRT decryption, real Decrypt, math/big key predicate). "+
-			"states/transitions: TLC on spec/Paillier.tla ("+c14Invs+") and spec/PaillierKeyGen.tla ("+c14KeyInvs+"). "+
-			"traces = ndjson lines of real calls explained by Paillier_Trace.tla / PaillierKeyGen_Trace.tla (value predicted by TLC; existential over the units for Encrypt; argument classes for real-size calls)",
+			"states/transitions: TLC on spec/Paillier.tla ("+c14Invs+"), spec/PaillierKeyGen.tla ("+c14KeyInvs+"; candidate construction byte by byte, size classes) and spec/PaillierHist.tla ("+c14HistInvs+": key objects that are used, re-populated and used again). "+
+			"histories generated by TLC from PaillierHist.tla (directed catalogue object x operation x mode x operation, random walks) are replayed on the real structs at toy, generated and vendored size. "+
+			"traces = ndjson lines of real calls explained by Paillier_Trace.tla / PaillierKeyGen_Trace.tla / PaillierHist_Trace.tla (value predicted by TLC; existential over the units for Encrypt; argument classes for real-size calls)",
 		cov, []string{
 			"the prime factors in the vendored fixtures (independent CRT decryption; self-checked against the encryption formula, and compared with TLC's decryption table on the whole toy domain)",
 			"Go math/big (arithmetic, ProbablyPrime with 32 rounds for the key predicate above 30 bits)",
@@ -495,5 +635,5 @@ func C14(ctx *core.Ctx) error {
 			"'far apart' is the code's own criterion: |P-Q| has at least modulusBitLen/2 - 3 bits; odd requested lengths are recorded, their length is not judged",
 			"a GenerateKeyPair call that does not return is inconclusive here (termination of the prime generator is C19)",
 			"freshness at real size: ciphertexts of the same plaintext differ; at toy size: equal ciphertexts exactly for equal reported randomisers, and not all of 64 coincide",
-		}, "java tlc2.TLC MC_Paillier.tla / MC_Paillier_Trace.tla / MC_PaillierKeyGen.tla / MC_PaillierKeyGen_Trace.tla")
+		}, "java tlc2.TLC MC_Paillier.tla / MC_Paillier_Trace.tla / MC_PaillierKeyGen.tla / MC_PaillierKeyGen_Trace.tla / MC_PaillierHist.tla / MCV_PaillierHist.tla / MCG_PaillierHist.tla (-simulate) / MCT_PaillierHist_Trace.tla")
 }
